@@ -17,7 +17,11 @@ fn history_plan(rng: &mut Rng, l: &mut Login, n: usize, fails: &mut Vec<String>,
     for step_ in 0..n {
         let cur = *l.server.reconnect_challenge_data();
         let kind = match plan { Some(p) => if p[step_] { 0 } else { 3 + rng.below(5) }, None => rng.below(9) };
-        let cc: [u8; 16] = rng.arr();
+        // the client's own challenge: usually fresh, but the property does not ask for that - a client (or a peer
+        // speaking the protocol without this library) may present the same client data again, directly after an
+        // attempt that carried it or later, and a correct proof over it for the challenge now on offer is still correct
+        let reuse = !past.is_empty() && rng.chance(1, 4);
+        let cc: [u8; 16] = if reuse { if rng.chance(2, 3) { past[past.len() - 1].0 } else { rng.pick(&past).0 } } else { rng.arr() };
         vr::install_tape(&cc);
         let honest = l.client.calculate_reconnect_values(cur);
         vr::remove_tape(); vr::take_log();
@@ -25,7 +29,7 @@ fn history_plan(rng: &mut Rng, l: &mut Login, n: usize, fails: &mut Vec<String>,
             fails.push(format!("{{\"what\":\"client reconnect values are not (drawn challenge, H(U|cd|sd|K))\",\"user\":{},\"K\":\"{}\",\"server_challenge\":\"{}\"}}", jstr(&l.u), hex(&l.ks), hex(&cur)));
         }
         let (cd, pf, label): ([u8; 16], [u8; 20], &'static str) = match kind {
-            0 | 1 | 2 => (honest.challenge_data, honest.proof, "correct"),
+            0 | 1 | 2 => (honest.challenge_data, honest.proof, if reuse { "correct, client data repeated from an earlier attempt" } else { "correct" }),
             3 if !past.is_empty() => { let p = *rng.pick(&past); (p.0, p.1, "replay of an earlier pair") }
             4 if !stale.is_empty() => { let s = *rng.pick(&stale); (cc, sha(&[&ub, &cc, &s, &l.ks]), "proof for a stale challenge") }
             5 => { let mut k2 = l.ks; k2[rng.below(40) as usize] ^= 1; (cc, sha(&[&ub, &cc, &cur, &k2]), "wrong session key") }
@@ -51,7 +55,7 @@ fn history_plan(rng: &mut Rng, l: &mut Login, n: usize, fails: &mut Vec<String>,
                 if inject && after != next { fails.push(det("challenge after the attempt is not the freshly drawn one")); }
                 if !inject && after == cur { fails.push(det("challenge not replaced after the attempt")); }
                 if label == "replay of an earlier pair" && b { fails.push(det("a captured pair was accepted a second time")); }
-                if label == "correct" && !b { fails.push(det("legitimate client refused")); }
+                if label.starts_with("correct") && !b { fails.push(det("legitimate client refused")); }
                 h.verdicts.push(b as u8);
                 past.push((cd, pf, b));
             }
